@@ -107,6 +107,8 @@ def proof_gate(ctx, prop_file, theorems):
     if not os.path.exists(os.path.join(C.COQ, prop_file)):
         ctx.proof["ok"] = None
         return True
+    from . import facts
+    facts.regen()          # gen/*.v are part of the Coq project: regenerate them from /repo first
     ok = audit_proofs(ctx, prop_file, theorems)
     if not ok:
         log("proof audit failed at %s\n%s" % (ctx.proof.get("failed_at"), ctx.proof["log"][-1500:]))
@@ -482,6 +484,7 @@ def c07(ctx):
 
     keep = DIGEST + ("PANIC", "FAULT", "W", "NONE", "CK")
     multi_dynamic(ctx, ("dev", "release"), make, oracle, keep, "Default vs new(Key::default())", "C07")
+    facts_gate(ctx, "C07")
     proof_verdict(ctx, ok)
 
 
@@ -1127,6 +1130,185 @@ def facts_gate(ctx, pid):
     facts.check(ctx, pid)
 
 
+
+# C10  backend selection in every build configuration
+def c10(ctx):
+    ctx.nontrivial_rule = ("theorems over the ladder regenerated from src/builder.rs are exhaustive over all 256 configurations; dynamically, "
+                           "in each buildable configuration (quick 6, thorough 20): HighwayHasher obtained by new / default / restore / clone / "
+                           "HighwayBuildHasher reports (Debug) the same tag, the tag is one the configuration permits, SseHash::new / AvxHash::new / "
+                           "from_checkpoint return Some iff std and the CPU feature is detected, and every digest equals PortableHash's; "
+                           "non-trivial = distinct (configuration, script)")
+    ok = proof_gate(ctx, "theories/Properties/C10.v",
+                    ["C10_selection_permitted", "C10_source_ladders", "C10_dispatch_tables", "C10_safe_constructors",
+                     "C10_default_and_builder", "C10_results_equal_portable"])
+    ensure_model(ctx)
+    seed_rng = Rng(ctx.seed).fork("C10")
+
+    def make(impl):
+        rng = seed_rng.fork(impl.name)
+        hists = []
+        for hid in range(40 if ctx.tier == "quick" else 400):
+            key = G.rand_key(rng)
+            d = G.rand_data(rng, rng.choice(G.CHUNK_LENS + [rng.below(200)]))
+            blob, _ = G.rand_blob(rng)
+            w = G.WIDTHS[hid % 3]
+            lines = ["new 0 D %s" % G.keystr(key), "debug 0", "default 1 D", "debug 1", "restore 2 D %s" % blob.hex(), "debug 2",
+                     "clone 3 0", "debug 3", "new 4 B %s" % G.keystr(key), "debug 4", "restorefrom 5 D 0", "debug 5",
+                     "new 6 S %s" % G.keystr(key), "new 7 A %s" % G.keystr(key), "restore 8 S %s" % blob.hex(), "restore 9 A %s" % blob.hex(),
+                     "append 0 %s" % hexs(d), "append 3 %s" % hexs(d), "append 4 %s" % hexs(d), "append 5 %s" % hexs(d),
+                     "fin%s 0" % w, "fin%s 3" % w, "fin%s 4" % w, "fin%s 5" % w,
+                     "new 20 P %s" % G.keystr(key), "hash%s 20 %s" % (w, hexs(d))]
+            hists.append(History(hid, lines, {"cfg": impl.name}))
+        return hists
+
+    def oracle_for(impl):
+        i = impl.info
+        std, tfa, tfs, da, ds = (i["std"] == "1", i["tf_avx2"] == "1", i["tf_sse41"] == "1", i["det_avx2"] == "1", i["det_sse41"] == "1")
+
+        def permitted(tag):
+            if tag == 1:
+                return tfa or (std and da)
+            if tag == 2:
+                return (tfs or (std and ds)) and not tfa
+            if tag == 0:
+                return not (tfa or tfs or (std and (da or ds)))
+            return False
+
+        def oracle(h, il):
+            if has_panic(il):
+                return "panic"
+            tags = [int(l.split()[1]) for l in il if l.startswith("TAG ") and l.split()[1].isdigit()]
+            if len(tags) != sum(1 for l in h.lines if l.startswith("debug")):
+                return None
+            if tags and not all_equal(tags):
+                return "new/default/restore/clone/BuildHasher select different backends: tags %s" % tags
+            if tags and not permitted(tags[0]):
+                return "configuration %s does not permit backend tag %d" % (impl.name, tags[0])
+            outs = [l for l in il if not l.startswith("ALLOC")]
+            if len(outs) >= 16 and len(outs) == len(h.lines):
+                exp_s = "OK" if (std and ds) else "NONE"
+                exp_a = "OK" if (std and da) else "NONE"
+                got = (outs[12], outs[13], outs[14], outs[15])
+                if got != (exp_s, exp_a, exp_s, exp_a):
+                    return "safe SIMD constructors returned %s, expected %s (std=%s, detected sse4.1=%s avx2=%s)" % (got, (exp_s, exp_a, exp_s, exp_a), std, ds, da)
+            ds_ = digests(il)
+            if len(ds_) == 5 and not all_equal(ds_):
+                return "dispatcher digests %s differ from portable %s" % (ds_[:4], ds_[4])
+            return None
+        return oracle
+
+    keep = DIGEST + ("PANIC", "FAULT", "TAG", "NONE", "OK")
+    names = ("dev", "release", "release-avx2", "dev-nostd", "release-nostd-sse41", "dev-sse41-noavx2") if ctx.tier == "quick" else ALL_CONFIGS
+    for name in names:
+        impl = get_impl(ctx, name)
+        hists = make(impl)
+        o = oracle_for(impl)
+        fails, mism, _ = run_dynamic(ctx, impl, hists, o, keep)
+        report(ctx, impl, fails, mism, o, keep, "backend selection in configuration %s" % name)
+        ctx.count("configs", 1)
+        if name not in C.PERSISTENT:
+            impl.cleanup()
+    proof_verdict(ctx, ok)
+
+
+def fact_property(ctx, pid, prop_file, theorems):
+    from . import facts
+    ok = proof_gate(ctx, prop_file, theorems)
+    off = []
+    if not ok:
+        off = facts.offenders(pid)
+    return ok, off
+
+
+# C16  no unsafe on the portable path
+def c16(ctx):
+    ctx.level = "proof"
+    ctx.nontrivial_rule = "syntactic property: the evaluated cases are the source files of the portable path (regenerated inventory)"
+    ok, off = fact_property(ctx, "C16", "theories/Properties/C16.v", ["C16_portable_path_has_no_unsafe", "C16_meaning"])
+    from . import facts
+    f = facts.parse_facts()
+    for p in ("src/lib.rs", "src/portable.rs", "src/internal.rs", "src/key.rs", "src/traits.rs", "src/macros.rs", "src/hash.rs"):
+        ctx.evaluations += 1
+        ctx.distinct.add(p)
+        ctx.samples.append({"file": p, "unsafe_constructs": f.get(p, {}).get("ff_unsafe", "?"), "macros": f.get(p, {}).get("ff_macros", "?")})
+    if not ok:
+        concrete = [o for o in off if re.search(r":\d+: |deny\(unsafe_code\)|macro", o)]
+        if concrete:
+            path = ctx.replay_path("v")
+            ctx.violation("unsafe code on the portable path: " + "; ".join(concrete[:8]), None, tag="v", extra_lines=concrete)
+        else:
+            proof_verdict(ctx, ok)
+
+
+# C17  byte-order / word-size neutrality
+def c17(ctx):
+    ctx.nontrivial_rule = ("(a) theorem over the regenerated inventory of the portable path; (b) the real PortableHash executed under Miri on "
+                           "big-endian / 32-bit targets (s390x, powerpc, i686) against the extracted model: digests and checkpoint bytes of "
+                           "generated histories must be identical; non-trivial = distinct script")
+    ok, off = fact_property(ctx, "C17", "theories/Properties/C17.v", ["C17_endian_neutral_source", "C17_model_target_free"])
+    ensure_model(ctx)
+    try:
+        from . import miri
+        miri.portable_targets(ctx)
+    except ImportError:
+        pass
+    if not ok and not ctx.violations:
+        ctx.violation("regenerated source facts: the portable path is no longer shown byte-order / word-size neutral: " + "; ".join(off[:10]),
+                      None, no_input=True, tag="facts", extra_lines=off)
+
+
+# C18  no heap allocation
+def c18(ctx):
+    ctx.nontrivial_rule = ("a counting global allocator is armed around every library call of every generated history (all operations, all x86 "
+                           "hasher types, inputs 0 .. 1 MiB in thorough / 64 KiB in quick, Debug into a stack sink), in std and no_std builds; "
+                           "oracle: no ALLOC line; non-trivial = distinct script")
+    ok, off = fact_property(ctx, "C18", "theories/Properties/C18.v", ["C18_no_alloc_constructs", "C18_fixed_size_state", "C18_reachable"])
+    ensure_model(ctx)
+    seed_rng = Rng(ctx.seed).fork("C18")
+
+    def make(impl):
+        rng = seed_rng.fork("h")
+        ops = feed_ops_for(impl)
+        hists = []
+        hid = 0
+        for i in range(600 if ctx.tier == "quick" else 20000):
+            hists.append(History(hid, random_history(rng, ops), {}))
+            hid += 1
+        for n in ([1 << 12, 1 << 16] if ctx.tier == "quick" else [1 << 12, 1 << 16, 1 << 20]):
+            for b in X86_BACKENDS:
+                d = rng.bytes(n, 0)
+                lines = [ctor(b, 0, G.REF_KEY), "%s 0 %s" % (ops[-1], hexs(d)), "append 0 %s" % hexs(d[:77]), "ckpt 0", "debug 0", "clone 1 0",
+                         "finish 1", "fin256 0", "fin64 1"]
+                hists.append(History(hid, lines, {"big": n}))
+                hid += 1
+        return hists
+
+    def oracle(h, il):
+        if has_panic(il):
+            return "panic"
+        a = [l for l in il if l.startswith("ALLOC")]
+        if a:
+            k = [i for i, l in enumerate(il) if l.startswith("ALLOC")][0]
+            return "a library call allocated on the heap (%s after output line %d `%s`)" % (a[0], k, il[k - 1] if k else "")
+        return None
+
+    keep = DIGEST + ("PANIC", "FAULT", "W", "FIN", "NONE", "CK", "TAG", "OK")
+    names = ("dev", "release", "release-nostd") if ctx.tier == "quick" else ("dev", "release", "dev-nostd", "release-nostd", "release-avx2")
+    for name in names:
+        impl = get_impl(ctx, name)
+        hists = make(impl)
+        big = [h for h in hists if h.meta.get("big", 0) > (1 << 16)]
+        small = [h for h in hists if h not in big]
+        fails, mism, _ = run_dynamic(ctx, impl, small, oracle, keep)
+        f2, _, _ = run_dynamic(ctx, impl, big, oracle, keep, use_model=False)
+        report(ctx, impl, fails + f2, mism, oracle, keep, "heap allocation in library calls")
+        if name not in C.PERSISTENT:
+            impl.cleanup()
+    if not ok and not ctx.violations:
+        ctx.violation("regenerated source facts: allocation-capable construct on the crate's non-test code: " + "; ".join(off[:10]),
+                      None, no_input=True, tag="facts", extra_lines=off)
+
+
 def replay(pid, path):
     """Re-run a replay script on the implementation (dev and release) and on the model; print both."""
     lines = [l.rstrip("\n") for l in open(path)]
@@ -1151,4 +1333,4 @@ def replay(pid, path):
 
 
 PROPS = {"C01": c01, "C02": c02, "C05": c05, "C06": c06, "C07": c07, "C08": c08, "C09": c09,
-         "C11": c11, "C12": c12, "C13": c13, "C14": c14, "C15": c15}
+         "C10": c10, "C11": c11, "C12": c12, "C13": c13, "C14": c14, "C15": c15, "C16": c16, "C17": c17, "C18": c18}
